@@ -325,30 +325,69 @@ private theorem exec_counts {σ : Type} (P : PolicyFn σ) (idem : Bool) (outcome
   case case7 => simp [countRetry, Decision.isRetry, answeredLast, succeeded]
   case case8 => simp [countRetry, Decision.isRetry, answeredLast, succeeded]
 
-/-- The first attempt made from a loop state: at the current consistency, on the current target if its next
-`get_connection()` succeeds, else on a later one. -/
+/-- The first attempt made from a loop state: at the current consistency; on the current target exactly when its
+next `get_connection()` succeeds, else on a later one. -/
 private theorem exec_first {σ : Type} (P : PolicyFn σ) (idem : Bool) (outcomes : Nat → Outcome) (fuel : Nat)
     (plan : List Target) (t : Nat) (loc : Loc σ) (b : Attempt)
     (hb : (exec P idem outcomes fuel plan t loc).attempts[0]? = some b) :
-    b.cl = loc.cl ∧ t ≤ b.target ∧ (∀ av rest, plan = av :: rest → av 0 = true → b.target = t) := by
+    b.cl = loc.cl ∧ t ≤ b.target ∧ (∀ av rest, plan = av :: rest → (av 0 = true ↔ b.target = t)) := by
   fun_induction exec P idem outcomes fuel plan t loc
   case case1 => simp at hb
   case case2 => simp at hb
   case case3 fuel av rest t loc hav ih =>
     obtain ⟨h1, h2, _⟩ := ih hb
     refine ⟨h1, by omega, ?_⟩
-    intro av' rest' he h0
-    cases he; rw [hav] at h0; cases h0
+    intro av' rest' he
+    cases he
+    constructor
+    · intro h0; rw [hav] at h0; cases h0
+    · intro h0; omega
   case case4 fuel av rest t loc hav a hout =>
-    simp only [List.getElem?_cons_zero, Option.some.injEq] at hb; subst hb; simp [a]
+    simp only [List.getElem?_cons_zero, Option.some.injEq] at hb; subst hb
+    refine ⟨by simp [a], by simp [a], ?_⟩
+    intro av' rest' he; cases he; simpa [a] using hav
   case case5 fuel av rest t loc hav a e hout created r loc' cl hd ih =>
-    simp only [Trace.push, List.getElem?_cons_zero, Option.some.injEq] at hb; subst hb; simp [a]
+    simp only [Trace.push, List.getElem?_cons_zero, Option.some.injEq] at hb; subst hb
+    refine ⟨by simp [a], by simp [a], ?_⟩
+    intro av' rest' he; cases he; simpa [a] using hav
   case case6 fuel av rest t loc hav a e hout created r loc' cl hd ih =>
-    simp only [Trace.push, List.getElem?_cons_zero, Option.some.injEq] at hb; subst hb; simp [a]
+    simp only [Trace.push, List.getElem?_cons_zero, Option.some.injEq] at hb; subst hb
+    refine ⟨by simp [a], by simp [a], ?_⟩
+    intro av' rest' he; cases he; simpa [a] using hav
   case case7 fuel av rest t loc hav a e hout created r hd =>
-    simp only [List.getElem?_cons_zero, Option.some.injEq] at hb; subst hb; simp [a]
+    simp only [List.getElem?_cons_zero, Option.some.injEq] at hb; subst hb
+    refine ⟨by simp [a], by simp [a], ?_⟩
+    intro av' rest' he; cases he; simpa [a] using hav
   case case8 fuel av rest t loc hav a e hout created r hd =>
-    simp only [List.getElem?_cons_zero, Option.some.injEq] at hb; subst hb; simp [a]
+    simp only [List.getElem?_cons_zero, Option.some.injEq] at hb; subst hb
+    refine ⟨by simp [a], by simp [a], ?_⟩
+    intro av' rest' he; cases he; simpa [a] using hav
+
+/-- Every target passed over before the first attempt had a failing `get_connection()`. -/
+private theorem exec_first_skips {σ : Type} (P : PolicyFn σ) (idem : Bool) (outcomes : Nat → Outcome) (fuel : Nat)
+    (plan : List Target) (t : Nat) (loc : Loc σ) (b : Attempt)
+    (hb : (exec P idem outcomes fuel plan t loc).attempts[0]? = some b) (t' : Nat) (h1 : t ≤ t')
+    (h2 : t' < b.target) (av' : Target) (hav' : plan[t' - t]? = some av') : av' 0 = false := by
+  fun_induction exec P idem outcomes fuel plan t loc
+  case case1 => simp at hb
+  case case2 => simp at hb
+  case case3 fuel av rest t loc hav ih =>
+    by_cases ht : t' = t
+    · subst ht; simp only [Nat.sub_self, List.getElem?_cons_zero, Option.some.injEq] at hav'
+      rw [← hav']; exact hav
+    · have : t' - t = (t' - (t + 1)) + 1 := by omega
+      rw [this, List.getElem?_cons_succ] at hav'
+      exact ih hb (by omega) hav'
+  case case4 fuel av rest t loc hav a hout =>
+    simp only [List.getElem?_cons_zero, Option.some.injEq] at hb; subst hb; simp only [a] at h2; omega
+  case case5 fuel av rest t loc hav a e hout created r loc' cl hd ih =>
+    simp only [Trace.push, List.getElem?_cons_zero, Option.some.injEq] at hb; subst hb; simp only [a] at h2; omega
+  case case6 fuel av rest t loc hav a e hout created r loc' cl hd ih =>
+    simp only [Trace.push, List.getElem?_cons_zero, Option.some.injEq] at hb; subst hb; simp only [a] at h2; omega
+  case case7 fuel av rest t loc hav a e hout created r hd =>
+    simp only [List.getElem?_cons_zero, Option.some.injEq] at hb; subst hb; simp only [a] at h2; omega
+  case case8 fuel av rest t loc hav a e hout created r hd =>
+    simp only [List.getElem?_cons_zero, Option.some.injEq] at hb; subst hb; simp only [a] at h2; omega
 
 private theorem cons_next_some {av : Target} {rest : List Target} {n : Nat} {av' : Target}
     (h : (av.next :: rest)[n]? = some av') (hj : ∃ j, av' j = true) :
@@ -406,10 +445,22 @@ private theorem exec_targets {σ : Type} (P : PolicyFn σ) (idem : Bool) (outcom
     simp only [List.mem_singleton] at hb; subst hb
     exact ⟨by simp [a], av, by simp [a], 0, by simpa using hav⟩
 
+/-- Number of attempts of `as` that went to target `tg` (= number of successful `get_connection()` calls made
+on it). -/
+def callsOn (as : List Attempt) (tg : Nat) : Nat := (as.filter (fun x => x.target == tg)).length
+
+private theorem callsOn_cons_take_eq {x : Attempt} {as : List Attempt} {n tg : Nat} (h : x.target = tg) :
+    callsOn ((x :: as).take (n + 1)) tg = callsOn (as.take n) tg + 1 := by
+  simp [callsOn, List.take_succ_cons, List.filter_cons, h]
+
+private theorem callsOn_cons_take_ne {x : Attempt} {as : List Attempt} {n tg : Nat} (h : x.target ≠ tg) :
+    callsOn ((x :: as).take (n + 1)) tg = callsOn (as.take n) tg := by
+  simp [callsOn, List.take_succ_cons, List.filter_cons, h]
+
 /-- Attempt `i+1` follows decision `i`: it is a retry decision, the consistency is the one it named (or
-unchanged); after `RetryNextTarget` the target is a later one; after `RetrySameTarget` it is the same target,
-or — when that target's next `get_connection()` fails (`execution.rs:536-547`) — a later one; it IS the same
-target whenever the target's pool keeps yielding connections. -/
+unchanged); after `RetryNextTarget` the target is a later one; after `RetrySameTarget` it is the same target
+exactly when that target's next `get_connection()` call succeeds (`execution.rs:536-547`), else a later one; and
+every target passed over between the two attempts had a failing `get_connection()`. -/
 private theorem exec_threading {σ : Type} (P : PolicyFn σ) (idem : Bool) (outcomes : Nat → Outcome) (fuel : Nat)
     (plan : List Target) (t : Nat) (loc : Loc σ) (i : Nat) (a b : Attempt)
     (ha : (exec P idem outcomes fuel plan t loc).attempts[i]? = some a)
@@ -417,17 +468,24 @@ private theorem exec_threading {σ : Type} (P : PolicyFn σ) (idem : Bool) (outc
     ∃ d, (exec P idem outcomes fuel plan t loc).decisions[i]? = some d ∧ d.isRetry = true ∧
       b.cl = d.newCl.getD a.cl ∧
       (d.isRetrySame = true → a.target ≤ b.target ∧
-        (∀ av, plan[a.target - t]? = some av → (∀ j, av j = true) → b.target = a.target)) ∧
-      (d.isRetrySame = false → a.target < b.target) := by
+        (∀ av, plan[a.target - t]? = some av →
+          (av (callsOn ((exec P idem outcomes fuel plan t loc).attempts.take (i + 1)) a.target) = true
+            ↔ b.target = a.target))) ∧
+      (d.isRetrySame = false → a.target < b.target) ∧
+      (∀ t', a.target < t' → t' < b.target → ∀ av, plan[t' - t]? = some av → av 0 = false) := by
   fun_induction exec P idem outcomes fuel plan t loc generalizing i
   case case1 => simp at hb
   case case2 => simp at hb
   case case3 fuel av rest t loc hav ih =>
-    obtain ⟨d, h1, h2, h3, h4, h5⟩ := ih i ha hb
+    obtain ⟨d, h1, h2, h3, h4, h5, h6⟩ := ih i ha hb
     have hta := (exec_targets _ _ _ _ _ _ _ _ (List.mem_of_getElem? ha)).1
-    refine ⟨d, h1, h2, h3, fun hs => ⟨(h4 hs).1, fun av' hav' hal => (h4 hs).2 av' ?_ hal⟩, h5⟩
-    have : a.target - t = (a.target - (t + 1)) + 1 := by omega
-    rw [this, List.getElem?_cons_succ] at hav'; exact hav'
+    refine ⟨d, h1, h2, h3, fun hs => ⟨(h4 hs).1, fun av' hav' => (h4 hs).2 av' ?_⟩, h5, ?_⟩
+    · have : a.target - t = (a.target - (t + 1)) + 1 := by omega
+      rw [this, List.getElem?_cons_succ] at hav'; exact hav'
+    · intro t' q1 q2 av' hav'
+      have : t' - t = (t' - (t + 1)) + 1 := by omega
+      rw [this, List.getElem?_cons_succ] at hav'
+      exact h6 t' q1 q2 av' hav'
   case case4 => simp at hb
   case case5 fuel av rest t loc hav a0 e hout created r loc' cl hd ih =>
     cases i with
@@ -435,40 +493,76 @@ private theorem exec_threading {σ : Type} (P : PolicyFn σ) (idem : Bool) (outc
       simp only [Trace.push, List.getElem?_cons_zero, Option.some.injEq] at ha
       simp only [Trace.push, Nat.zero_add, List.getElem?_cons_succ] at hb
       obtain ⟨h1, h2, h3⟩ := exec_first _ _ _ _ _ _ _ _ hb
-      refine ⟨r.2, by simp [Trace.push], isRetry_of_same hd, ?_, ?_, ?_⟩
-      · subst ha; simpa [loc', a0] using h1
-      · intro _; subst ha
+      have hsk := exec_first_skips _ _ _ _ _ _ _ _ hb
+      subst ha
+      refine ⟨r.2, by simp [Trace.push], isRetry_of_same hd, ?_, ?_, ?_, ?_⟩
+      · simpa [loc', a0] using h1
+      · intro _
         refine ⟨by simpa [a0] using h2, ?_⟩
-        intro av' hav' hal
+        intro av' hav'
         simp only [a0, Nat.sub_self, List.getElem?_cons_zero, Option.some.injEq] at hav'
         subst hav'
-        simpa [a0] using h3 av.next rest rfl (hal 1)
+        have := h3 av.next rest rfl
+        simpa [Trace.push, callsOn, a0, Target.next] using this
       · intro hc; rw [isRetrySame_of_same hd] at hc; cases hc
+      · intro t' q1 q2 av' hav'
+        simp only [a0] at q1
+        have e1 : t' - t = (t' - t - 1) + 1 := by omega
+        refine hsk t' (by omega) q2 av' ?_
+        rw [e1, List.getElem?_cons_succ] at hav' ⊢; exact hav'
     | succ j =>
       simp only [Trace.push, List.getElem?_cons_succ] at ha hb
-      obtain ⟨d, h1, h2, h3, h4, h5⟩ := ih j ha hb
-      refine ⟨d, by simpa [Trace.push] using h1, h2, h3,
-        fun hs => ⟨(h4 hs).1, fun av' hav' hal => ?_⟩, h5⟩
-      obtain ⟨av'', q1, q2⟩ := cons_next_always hav' hal
-      exact (h4 hs).2 av'' q1 q2
+      obtain ⟨d, h1, h2, h3, h4, h5, h6⟩ := ih j ha hb
+      have hta := (exec_targets _ _ _ _ _ _ _ _ (List.mem_of_getElem? ha)).1
+      refine ⟨d, by simpa [Trace.push] using h1, h2, h3, fun hs => ⟨(h4 hs).1, fun av' hav' => ?_⟩, h5, ?_⟩
+      · by_cases hta0 : a.target = t
+        · have e0 : a.target - t = 0 := by omega
+          rw [e0, List.getElem?_cons_zero, Option.some.injEq] at hav'
+          subst hav'
+          have := (h4 hs).2 av.next (by rw [e0]; simp)
+          simp only [Trace.push]
+          rw [callsOn_cons_take_eq (by simp [a0, hta0])]
+          exact this
+        · have e1 : a.target - t = (a.target - t - 1) + 1 := by omega
+          have := (h4 hs).2 av' (by rw [e1, List.getElem?_cons_succ] at hav' ⊢; exact hav')
+          simp only [Trace.push]
+          rw [callsOn_cons_take_ne (by simp only [a0]; exact fun h => hta0 h.symm)]
+          exact this
+      · intro t' q1 q2 av' hav'
+        have e1 : t' - t = (t' - t - 1) + 1 := by omega
+        refine h6 t' q1 q2 av' ?_
+        rw [e1, List.getElem?_cons_succ] at hav' ⊢; exact hav'
   case case6 fuel av rest t loc hav a0 e hout created r loc' cl hd ih =>
     cases i with
     | zero =>
       simp only [Trace.push, List.getElem?_cons_zero, Option.some.injEq] at ha
       simp only [Trace.push, Nat.zero_add, List.getElem?_cons_succ] at hb
       obtain ⟨h1, h2, h3⟩ := exec_first _ _ _ _ _ _ _ _ hb
-      refine ⟨r.2, by simp [Trace.push], isRetry_of_next hd, ?_, ?_, ?_⟩
-      · subst ha; simpa [loc', a0] using h1
+      have hsk := exec_first_skips _ _ _ _ _ _ _ _ hb
+      subst ha
+      refine ⟨r.2, by simp [Trace.push], isRetry_of_next hd, ?_, ?_, ?_, ?_⟩
+      · simpa [loc', a0] using h1
       · intro hc; rw [hd] at hc; cases hc
-      · intro _; subst ha; simp only [a0]; omega
+      · intro _; simp only [a0]; omega
+      · intro t' q1 q2 av' hav'
+        simp only [a0] at q1
+        have e1 : t' - t = (t' - (t + 1)) + 1 := by omega
+        rw [e1, List.getElem?_cons_succ] at hav'
+        exact hsk t' (by omega) q2 av' hav'
     | succ j =>
       simp only [Trace.push, List.getElem?_cons_succ] at ha hb
-      obtain ⟨d, h1, h2, h3, h4, h5⟩ := ih j ha hb
+      obtain ⟨d, h1, h2, h3, h4, h5, h6⟩ := ih j ha hb
       have hta := (exec_targets _ _ _ _ _ _ _ _ (List.mem_of_getElem? ha)).1
-      refine ⟨d, by simpa [Trace.push] using h1, h2, h3,
-        fun hs => ⟨(h4 hs).1, fun av' hav' hal => (h4 hs).2 av' ?_ hal⟩, h5⟩
-      have : a.target - t = (a.target - (t + 1)) + 1 := by omega
-      rw [this, List.getElem?_cons_succ] at hav'; exact hav'
+      refine ⟨d, by simpa [Trace.push] using h1, h2, h3, fun hs => ⟨(h4 hs).1, fun av' hav' => ?_⟩, h5, ?_⟩
+      · have e1 : a.target - t = (a.target - (t + 1)) + 1 := by omega
+        have := (h4 hs).2 av' (by rw [e1, List.getElem?_cons_succ] at hav'; exact hav')
+        simp only [Trace.push]
+        rw [callsOn_cons_take_ne (by simp only [a0]; omega)]
+        exact this
+      · intro t' q1 q2 av' hav'
+        have e1 : t' - t = (t' - (t + 1)) + 1 := by omega
+        rw [e1, List.getElem?_cons_succ] at hav'
+        exact h6 t' q1 q2 av' hav'
   case case7 => simp at hb
   case case8 => simp at hb
 
@@ -638,6 +732,35 @@ private theorem exec_resend_after_failure {σ : Type} (P : PolicyFn σ) (idem : 
   case case7 => simp at hi
   case case8 => simp at hi
 
+/-- Every attempt that was answered by a decision failed. -/
+private theorem exec_decided_failed {σ : Type} (P : PolicyFn σ) (idem : Bool) (outcomes : Nat → Outcome)
+    (fuel : Nat) (plan : List Target) (t : Nat) (loc : Loc σ) (i : Nat)
+    (hi : i < (exec P idem outcomes fuel plan t loc).decisions.length) :
+    ∃ e, outcomes (loc.k + i) = .fail e := by
+  fun_induction exec P idem outcomes fuel plan t loc generalizing i
+  case case1 => simp at hi
+  case case2 => simp at hi
+  case case3 ih => exact ih i hi
+  case case4 => simp at hi
+  case case5 fuel av rest t loc hav a e hout created r loc' cl hd ih =>
+    cases i with
+    | zero => exact ⟨e, by simpa using hout⟩
+    | succ j =>
+      have := ih j (by simpa [Trace.push] using hi)
+      simpa [loc', Nat.add_assoc, Nat.add_comm 1 j] using this
+  case case6 fuel av rest t loc hav a e hout created r loc' cl hd ih =>
+    cases i with
+    | zero => exact ⟨e, by simpa using hout⟩
+    | succ j =>
+      have := ih j (by simpa [Trace.push] using hi)
+      simpa [loc', Nat.add_assoc, Nat.add_comm 1 j] using this
+  case case7 fuel av rest t loc hav a e hout created r hd =>
+    have : i = 0 := by simpa using hi
+    subst this; exact ⟨e, by simpa using hout⟩
+  case case8 fuel av rest t loc hav a e hout created r hd =>
+    have : i = 0 := by simpa using hi
+    subst this; exact ⟨e, by simpa using hout⟩
+
 /-! ### the property theorems — about `run pol idem cl0 plan outcomes`: one request, one fiber -/
 
 section
@@ -747,6 +870,16 @@ theorem one_decision_per_failed_attempt :
     tr.attempts.length = tr.decisions.length + succeeded tr.final :=
   (exec_counts P idem outcomes fuel plan 0 (Loc.init cl0)).2
 
+/-- Every attempt that the retry session was consulted about really failed — for every final, including
+`ignored` and `exhausted` (whose last attempt, when there is one, is therefore a failure): `errAt`'s junk value for
+a successful attempt is never used by `histOf` in `decisions_are_policy_replay`. -/
+theorem decided_attempts_failed (i : Nat)
+    (hi : i < (runWith P idem cl0 plan outcomes fuel).decisions.length) :
+    ∃ e, outcomes i = .fail e ∧ errAt outcomes i = e := by
+  obtain ⟨e, he⟩ := exec_decided_failed P idem outcomes fuel plan 0 (Loc.init cl0) i hi
+  simp only [Loc.init, Nat.zero_add] at he
+  exact ⟨e, he, by simp [errAt, he]⟩
+
 /-- The decisions are those of ONE session of the policy (`new_session()` state) fed, in order, the error of
 each failed attempt with the request's idempotence flag and the consistency that attempt was sent at. -/
 theorem decisions_are_policy_replay_any_policy :
@@ -756,18 +889,33 @@ theorem decisions_are_policy_replay_any_policy :
 
 /-- Attempt `i+1` is the one decision `i` asked for: decision `i` is a retry decision and the consistency of
 attempt `i+1` is the one it returned (or the unchanged one).  After `RetryNextTarget` the target is a later
-one.  After `RetrySameTarget` it is the same target — or, when that target's pool gives no connection any
-more (`get_connection()` is called again before every attempt, `execution.rs:536-547`), a later one; it is the
-same target whenever the target's pool keeps yielding connections. -/
+one.  After `RetrySameTarget` it is the same target **exactly when** that target's next `get_connection()` call
+succeeds (`get_connection()` is called again before every attempt, `execution.rs:536-547`; the call index is the
+number of attempts made on the target so far), else a later one.  Every target passed over between the two
+attempts had a failing `get_connection()`. -/
 theorem attempt_follows_decision (i : Nat) (a b : Attempt)
     (ha : (runWith P idem cl0 plan outcomes fuel).attempts[i]? = some a)
     (hb : (runWith P idem cl0 plan outcomes fuel).attempts[i + 1]? = some b) :
     ∃ d, (runWith P idem cl0 plan outcomes fuel).decisions[i]? = some d ∧ d.isRetry = true ∧
       b.cl = d.newCl.getD a.cl ∧
       (d.isRetrySame = true → a.target ≤ b.target ∧
-        (∀ av, plan[a.target]? = some av → (∀ j, av j = true) → b.target = a.target)) ∧
-      (d.isRetrySame = false → a.target < b.target) := by
+        (∀ av, plan[a.target]? = some av →
+          (av (callsOn ((runWith P idem cl0 plan outcomes fuel).attempts.take (i + 1)) a.target) = true
+            ↔ b.target = a.target))) ∧
+      (d.isRetrySame = false → a.target < b.target) ∧
+      (∀ t', a.target < t' → t' < b.target → ∀ av, plan[t']? = some av → av 0 = false) := by
   simpa [runWith] using exec_threading P idem outcomes fuel plan 0 (Loc.init cl0) i a b ha hb
+
+/-- In particular a `RetrySameTarget` decision is followed by an attempt on the same target whenever the
+target's pool keeps yielding connections. -/
+theorem retry_same_stays_on_connected_target (i : Nat) (a b : Attempt) (d : Decision) (av : Target)
+    (ha : (runWith P idem cl0 plan outcomes fuel).attempts[i]? = some a)
+    (hb : (runWith P idem cl0 plan outcomes fuel).attempts[i + 1]? = some b)
+    (hd : (runWith P idem cl0 plan outcomes fuel).decisions[i]? = some d) (hs : d.isRetrySame = true)
+    (hav : plan[a.target]? = some av) (hal : ∀ j, av j = true) : b.target = a.target := by
+  obtain ⟨d', h1, _, _, h4, _⟩ := attempt_follows_decision P idem cl0 plan outcomes fuel i a b ha hb
+  rw [hd] at h1; cases h1
+  exact ((h4 hs).2 av hav).mp (hal _)
 
 /-- No request (idempotent or not, whatever the policy) is sent again after an attempt that succeeded. -/
 theorem never_after_success (k : Nat) (hk : outcomes k = .ok) :
@@ -1012,5 +1160,92 @@ example :
          .fail .brokenConnection] k)
         [0, 1, 0, 1, 0, 1, 0, 1, 0, 1]
         (List.replicate 2 (Fiber.fresh .quorum), ⟨[.always, .always], 0⟩)).1 = 6 := by decide
+
+
+/-! ### the multi-fiber step model is the single-fiber loop: `Fiber.step` iterated = `exec`
+(so the differentially tested `exec` and the `Fiber.step` used by `attempts_bounded_speculative` are one loop) -/
+
+/-- One fiber stepped `n` times on its own. -/
+def iterFiber {σ : Type} (P : PolicyFn σ) (idem : Bool) (o : Nat → Outcome) :
+    Nat → Fiber σ × SharedPlan → Fiber σ × SharedPlan
+  | 0, s => s
+  | n + 1, s => iterFiber P idem o n (s.1.step P idem o s.2)
+
+/-- **Tie.**  Whenever `exec` does not run out of fuel, a single fiber stepped alone from the same loop state
+finishes after some number of steps having made exactly the attempts of `exec`, in the same order (the log is
+kept latest-first). -/
+theorem fiber_steps_refine_exec {σ : Type} (P : PolicyFn σ) (idem : Bool) (o : Nat → Outcome) (fuel : Nat)
+    (plan : List Target) (t : Nat) (loc : Loc σ) (log : List Attempt)
+    (hf : (exec P idem o fuel plan t loc).final ≠ .outOfFuel) :
+    ∃ n, (iterFiber P idem o n (⟨none, loc, false, log⟩, ⟨plan, t⟩)).1.done = true ∧
+      (iterFiber P idem o n (⟨none, loc, false, log⟩, ⟨plan, t⟩)).1.log
+        = (exec P idem o fuel plan t loc).attempts.reverse ++ log := by
+  fun_induction exec P idem o fuel plan t loc generalizing log
+  case case1 => exact ⟨1, by simp [iterFiber, Fiber.step], by simp [iterFiber, Fiber.step]⟩
+  case case2 => simp at hf
+  case case3 fuel av rest t loc hav ih =>
+    obtain ⟨n, h1, h2⟩ := ih log hf
+    refine ⟨n + 2, ?_, ?_⟩
+    · simpa [iterFiber, Fiber.step, hav] using h1
+    · simpa [iterFiber, Fiber.step, hav] using h2
+  case case4 fuel av rest t loc hav a hout =>
+    refine ⟨2, ?_, ?_⟩ <;> simp [iterFiber, Fiber.step, hav, hout, a]
+  case case5 fuel av rest t loc hav a e hout created r loc' cl hd ih =>
+    obtain ⟨n, h1, h2⟩ := ih (a :: log) (by simpa [Trace.push] using hf)
+    cases n with
+    | zero => simp [iterFiber] at h1
+    | succ m =>
+      refine ⟨m + 2, ?_, ?_⟩
+      · simp only [iterFiber, Fiber.step] at h1 ⊢
+        simp only [r] at hd
+        simpa [hav, hout, hd, loc', a, r] using h1
+      · simp only [iterFiber, Fiber.step] at h2 ⊢
+        simp only [r] at hd
+        simpa [hav, hout, hd, loc', a, r, Trace.push] using h2
+  case case6 fuel av rest t loc hav a e hout created r loc' cl hd ih =>
+    obtain ⟨n, h1, h2⟩ := ih (a :: log) (by simpa [Trace.push] using hf)
+    refine ⟨n + 2, ?_, ?_⟩
+    · simp only [iterFiber, Fiber.step]
+      simp only [r] at hd
+      simpa [hav, hout, hd, loc', a, r] using h1
+    · simp only [iterFiber, Fiber.step]
+      simp only [r] at hd
+      simpa [hav, hout, hd, loc', a, r, Trace.push] using h2
+  case case7 fuel av rest t loc hav a e hout created r hd =>
+    simp only [r] at hd
+    refine ⟨2, ?_, ?_⟩ <;> simp [iterFiber, Fiber.step, hav, hout, hd, a]
+  case case8 fuel av rest t loc hav a e hout created r hd =>
+    simp only [r] at hd
+    refine ⟨2, ?_, ?_⟩ <;> simp [iterFiber, Fiber.step, hav, hout, hd, a]
+
+private theorem runSched_single {σ : Type} (P : PolicyFn σ) (idem : Bool) (o : Nat → Nat → Outcome) (n : Nat)
+    (f : Fiber σ) (sp : SharedPlan) :
+    runSched P idem o (List.replicate n 0) ([f], sp)
+      = ([(iterFiber P idem (o 0) n (f, sp)).1], (iterFiber P idem (o 0) n (f, sp)).2) := by
+  induction n generalizing f sp with
+  | zero => rfl
+  | succ m ih => simp only [List.replicate_succ, runSched, stepAt, iterFiber]; exact ih _ _
+
+/-- The same for the schedule semantics and a built-in policy: with ONE fiber, some schedule `[0, 0, …, 0]` makes
+`runSched` produce exactly the attempts of `run` (the function compared with the implementation on every `run`
+case). -/
+theorem runSched_one_fiber_is_run (pol : Policy) (idem : Bool) (cl0 : Consistency) (plan : List Target)
+    (outcomes : Nat → Outcome) :
+    ∃ n, ((runSched (builtin pol) idem (fun _ => outcomes) (List.replicate n 0)
+        ([Fiber.fresh cl0], ⟨plan, 0⟩)).1.map (fun f => f.log.reverse))
+      = [(run pol idem cl0 plan outcomes).attempts] := by
+  obtain ⟨n, _, h2⟩ := fiber_steps_refine_exec (builtin pol) idem outcomes
+    (plan.length + sameTargetBound pol + 1) plan 0 (Loc.init cl0) [] (loop_terminates pol idem cl0 plan outcomes)
+  refine ⟨n, ?_⟩
+  rw [runSched_single]
+  simp only [Fiber.fresh, List.map_cons, List.map_nil]
+  rw [h2]; simp [run, runWith]
+
+-- the target keeps yielding a connection for exactly two calls (`Target.upTo 2`): the first RetrySameTarget
+-- stays on it, the second one moves to the next target
+example :
+    (run .default true .quorum [Target.upTo 2, .always]
+      (script [.fail (.dbError (.readTimeout 2 2 false)), .fail (.dbError (.writeTimeout 0 .batchLog)),
+        .fail .brokenConnection])).attempts = [⟨0, .quorum⟩, ⟨0, .quorum⟩, ⟨1, .quorum⟩] := by decide
 
 end ScyllaVerif.Props.C06
